@@ -203,18 +203,29 @@ def model_summary(js):
     return sorted(out, key=lambda d: d["outputs"])
 
 
-def relabel(j, lab):
-    """Model terms of a renamed map pipeline record the current output name in a pick; the implementation the original."""
+def relabel(j, lab, top=None):
+    """Model terms of a renamed map pipeline record the current output name in a pick; the implementation the original.
+    `top`: the names of the pipeline's own (un-nested) functions - a pick of a function INSIDE a NestedPipeFunc comes from the
+    inner pipeline's evaluation and already records the original name."""
     if isinstance(j, dict):
         if "pick" in j:
-            return {"pick": [relabel(j["pick"][0], lab), lab.get(j["pick"][1], j["pick"][1])]}
+            base = j["pick"][0]
+            inner = top is not None and isinstance(base, dict) and "f" in base and base["f"] not in top
+            return {"pick": [relabel(base, lab, top), j["pick"][1] if inner else lab.get(j["pick"][1], j["pick"][1])]}
         if "f" in j:
-            return {"f": j["f"], "k": [[k, relabel(v, lab)] for k, v in j["k"]]}
+            return {"f": j["f"], "k": [[k, relabel(v, lab, top)] for k, v in j["k"]]}
         if "arr" in j:
-            return {"arr": [j["arr"][0], [relabel(x, lab) for x in j["arr"][1]]]}
+            return {"arr": [j["arr"][0], [relabel(x, lab, top) for x in j["arr"][1]]]}
         if "proj" in j:
-            return {"proj": [relabel(j["proj"][0], lab), j["proj"][1]]}
+            return {"proj": [relabel(j["proj"][0], lab, top), j["proj"][1]]}
     return j
+
+
+def top_names(p):
+    """Names of the un-nested functions of `p` when it has a NestedPipeFunc (else None: every pick is the pipeline's own)."""
+    if not any(isinstance(f, NestedPipeFunc) for f in p.functions):
+        return None
+    return sorted(f.__name__ for f in p.functions if not isinstance(f, NestedPipeFunc))
 
 
 class Ent:
@@ -322,7 +333,7 @@ class Runner:
             ent.vals = obs
             inputs = [[r, ent.inputs[ent.tags.get(r, r)]] for r in self.roots(ent.p) if ent.tags.get(r, r) in ent.inputs]
             self.history.append({"op": "map", "target": name, "inputs": inputs, "internal": ent.internal})
-            self.plan.append({"kind": "map", "name": name, "impl": obs, "labels": dict(ent.labels)})
+            self.plan.append({"kind": "map", "name": name, "impl": obs, "labels": dict(ent.labels), "top": top_names(ent.p)})
             return
         ent.vals = {}
         ent.dvals, ent.domit = {}, {}
@@ -524,6 +535,8 @@ class Runner:
         self.history.append(self.model_op(op))
         self.plan.append({"kind": "op", "op": op, "impl": {"ok": True, "summary": summary(p)}})
         self.observe(op["dst"])
+        if kind in ("nest", "simplify"):
+            self.nested_under_map(op, src, ent)
         # --- the property, on the implementation alone: every retained output computes what it computed before
         sources = [(op["src"], src, rho)] + ([(op["other"], other, lambda n: n)] if other is not None else [])
         for sname, s_ent, r in sources:
@@ -560,6 +573,51 @@ class Runner:
             self.check_unchanged(op["other"], f"after {kind}")
         self.last = ("scope" if kind == "scope_sel" else "rename" if kind == "rename_x" else kind, op["dst"], [op["src"]] + ([op["other"]] if other is not None else []))
         return True
+
+    def nested_under_map(self, op, src, ent):
+        """nest_funcs / simplified_pipeline "under map" (round 4).  MapSpec pipelines: the new object was just mapped by `observe`
+        (every retained output is compared with the old map below and with the model) - here a map that fails as a whole where the
+        old one ran is reported.  Call pipelines (no MapSpec anywhere): old and new are mapped too (every function runs once) and
+        every retained output must be the array-free value the old map returns; the new map is compared with the model as well."""
+        kind = op["op"]
+        nest = next((f for f in ent.p.functions if isinstance(f, NestedPipeFunc)), None)
+        self.counts.append(f"nested-under-map:{kind}:{ent.kind}:{'combined-mapspec' if nest is not None and nest.mapspec is not None else 'no-mapspec'}")
+        if ent.kind == "map":
+            if "*" in ent.vals and "*" not in src.vals and not ent.loose:
+                self.problems.append((f"{kind}: the map of the new pipeline fails ({ent.vals['*'].get('err')}: {ent.vals['*'].get('msg', '')[:80]}) "
+                                      f"where the map of the old one ran", True, None, ent.vals["*"], "ran"))
+            return
+        if any(f.mapspec is not None for f in ent.p.functions) or any(f.mapspec is not None for f in src.p.functions):
+            return
+        old_map = self.run_map_plain(src)
+        new_map = self.run_map_plain(ent)
+        inputs = [[r, kwval(ent.tags.get(r, r))] for r in self.roots(ent.p)]
+        self.history.append({"op": "map", "target": op["dst"], "inputs": inputs, "internal": []})
+        self.plan.append({"kind": "map", "name": op["dst"], "impl": new_map, "labels": dict(ent.labels), "top": top_names(ent.p)})
+        if "*" in old_map:
+            self.counts.append(f"nested-under-map:old-map-refused:{old_map['*'].get('err')}")
+            return
+        if "*" in new_map:
+            if not ent.loose:
+                self.problems.append((f"{kind}: the map of the new pipeline fails ({new_map['*'].get('err')}: {new_map['*'].get('msg', '')[:80]}) "
+                                      f"where the map of the old one ran", True, None, new_map["*"], "ran"))
+            return
+        for o, now in new_map.items():
+            if o in old_map and now != old_map[o] and not ent.loose:
+                self.problems.append((f"{kind}: output `{o}` of the new pipeline under map differs from the old pipeline's", True, None, now, old_map[o]))
+                break
+            if o in ent.vals and "value" in ent.vals[o] and now != ent.vals[o]:
+                self.problems.append((f"{kind}: output `{o}` of the new pipeline under map differs from pipeline('{o}', ...)", True, None, now, ent.vals[o]))
+                break
+
+    def run_map_plain(self, ent):
+        """`map` of a pipeline without MapSpecs: one plain value per root argument (defaults are supplied explicitly too)."""
+        try:
+            kw = {r: terms.dec(kwval(ent.tags.get(r, r))) for r in self.roots(ent.p)}
+            res = quiet(ent.p.map, kw, parallel=False, storage="dict")
+            return {o: {"value": terms.enc(r.output)} for o, r in res.items()}
+        except Exception as e:  # noqa: BLE001
+            return {"*": {"err": exc_enum(e), "msg": str(e)[:200]}}
 
     def inconsistent(self, e, ops):
         """Reading the structure of an object of the environment (graph, root_args, leaf_nodes, ...) raised: its caches are
@@ -849,10 +907,36 @@ class Runner:
 # evaluations and maps (none / 4 observed).  Messages are never compared.
 CLASS_CHECKED = {
     "join": {"ValueError"}, "rename": {"ValueError"}, "scope_sel": {"ValueError"}, "mut_scope": {"ValueError"},
-    "nest": {"ValueError", "RecursionError"}, "simplify": {"ValueError", "KeyError"}, "split": {"ValueError"},
+    "nest": {"ValueError", "RecursionError"}, "simplify": {"ValueError", "KeyError", "NotImplementedError"}, "split": {"ValueError"},
     "mut_drop": {"KeyError"}, "mut_replace": {"KeyError"}, "mut_add": {"ValueError"},
     "rename_x": {"ValueError", "RecursionError"}, "mut_rename_x": {"ValueError", "RecursionError"}, "mut_frename": {"ValueError"},
 }
+
+
+REASONS_IMPL = [("mix of None", "combine:mix"), ("different input and output mappings", "combine:in-out"), ("different input mappings", "combine:inputs"),
+                ("different output mappings", "combine:outputs"), ("differently", "combine:axes"), ("takes it whole", "combine:whole"),
+                ("only one leaf", "one-leaf"), ("at least two", "two-functions"), ("should be a subset", "subset"),
+                ("cannot be simplified currently", "mapspec-predecessor"), ("No combinable nodes", "nothing-combinable")]
+REASONS_MODEL = [("combine:mix", "combine:mix"), ("combine:in-out", "combine:in-out"), ("combine:inputs", "combine:inputs"), ("combine:outputs", "combine:outputs"),
+                 ("combine:axes", "combine:axes"), ("combine:whole", "combine:whole"), ("only one leaf", "one-leaf"), ("at least two", "two-functions"),
+                 ("not a subset", "subset"), ("no combinable", "nothing-combinable")]
+
+
+def impl_reason(impl):
+    """Why the implementation refused a nest / simplify: read off the message for the documented refusals (never compared otherwise)."""
+    if impl.get("err") == "Other:NetworkXUnfeasible":
+        return "cycle"
+    msg = impl.get("msg", "")
+    return next((r for k, r in REASONS_IMPL if k in msg), "other")
+
+
+def model_reason(st):
+    if st.get("err") == "RecursionError":
+        return "cycle"
+    if st.get("err") == "NotImplementedError":
+        return "mapspec-predecessor"
+    why = st.get("why", "")
+    return next((r for k, r in REASONS_MODEL if k in why), "other")
 
 
 def impl_class(err):
@@ -869,6 +953,12 @@ def judge_model(runner, steps):
             impl, op = pl["impl"], pl["op"]
             if "err" in impl and "err" in st:
                 runner.counts.append(f"refusal-class:{op['op']}:{impl['err']}/{st['err']}")
+                if op["op"] in ("nest", "simplify"):
+                    ri, rm = impl_reason(impl), model_reason(st)
+                    runner.counts.append(f"refusal-reason:{op['op']}:{ri}/{rm}")
+                    if ri != rm and "other" not in (ri, rm):
+                        yield (f"{op['op']} is refused by both, but the implementation's reason is `{ri}` ({impl.get('msg', '')[:70]}) and the model's `{rm}`",
+                               False, f"correspondence:{op['op']}-refusal-reason", impl, st)
                 if st["err"] in CLASS_CHECKED.get(op["op"], ()) and impl_class(impl["err"]) != st["err"]:
                     yield (f"{op['op']} is refused by both, but with {impl['err']} ({impl.get('msg', '')[:60]}) where the model has {st['err']} ({st.get('why')})",
                            False, f"correspondence:{op['op']}-refusal-class", impl, st)
@@ -922,7 +1012,7 @@ def judge_model(runner, steps):
                 continue
             lab = pl["labels"]
             for o, v in st["outputs"]:
-                mv = terms.canon(relabel(v, lab))
+                mv = terms.canon(relabel(v, lab, pl.get("top")))
                 if o in impl and impl[o].get("value") != mv:
                     yield (f"map output `{o}` of `{pl['name']}` differs from the model", False, "correspondence:map-value", impl[o], mv)
                     break
